@@ -24,7 +24,7 @@ def explore(tier, seed_, years=scenarios.YEARS, per_year=None, replays=True, sna
             tid += 1
             tr, res, solver, ans = scenarios.solve_scenario(year, request, p, rng, tid=tid, snap=snap)
             sc = {"year": year, "request": request, "profile": p.describe(), "given": dict(ans.given), "kinds": dict(ans.kinds),
-                  "trace": tr, "res": res, "variants": [], "sid": "%d/%d" % (year, k)}
+                  "trace": tr, "res": res, "variants": [], "sid": "%d/%d" % (year, k), "solver": solver}
             if replays:
                 # the same inputs from a file: random schedule + reversed request; reversed schedule
                 variants = [("file-rnd", runs.random_chooser(random.Random(k)), list(reversed(request))),
@@ -74,7 +74,7 @@ def explore(tier, seed_, years=scenarios.YEARS, per_year=None, replays=True, sna
             request = ["1040"] + (["nc_d-400"] if p.nc else [])
             tr, res, solver, ans = scenarios.solve_scenario(year, request, p, rng, tid=tid, snap=snap, overrides={k2.replace("{year}", str(year)): v2 for k2, v2 in ov.items()})
             out.append({"year": year, "request": request, "profile": p.describe(), "given": dict(ans.given), "kinds": dict(ans.kinds),
-                        "trace": tr, "res": res, "variants": [], "sid": "%d/d%d" % (year, k)})
+                        "trace": tr, "res": res, "variants": [], "sid": "%d/d%d" % (year, k), "solver": solver})
     return out
 
 
@@ -220,6 +220,44 @@ def cli_report_check(scs, rep, cov, tier):
     cov["cli_reports_checked"] = len(obs)
 
 
+def fixed_point_check(scs, rep, cov, tier, work):
+    """every stored line of every explored return (solved or not) evaluated once more on the final state (FixedPoint.tla)"""
+    import re
+    from habutax.form import FormAccessor
+    facts, where = [], []
+    for rid, sc in enumerate(scs):
+        solver = sc.get("solver")
+        if solver is None or sc["res"]["abort"]:
+            continue
+        for name, stored in list(solver._v.values.items()):
+            field = solver._field_map.get(name)
+            if field is None:
+                continue
+            try:
+                again = field.value(FormAccessor(solver._i, field.form()), FormAccessor(solver._v, field.form()))
+                a_txt = "%s:%r" % (type(again).__name__, again)
+            except BaseException as e:      # noqa
+                a_txt = "raises:" + type(e).__name__
+            facts.append({"rid": rid, "line": name, "stored": "%s:%r" % (type(stored).__name__, stored), "again": a_txt})
+            where.append(sc)
+    if not facts:
+        cov["lines_re_evaluated_on_the_final_state"] = 0
+        return
+    path = os.path.join(work, "fp.json")
+    json.dump({"lines": facts}, open(path, "w"))
+    cfgp = os.path.join(work, "fp.cfg")
+    open(cfgp, "w").write("SPECIFICATION Spec\nCHECK_DEADLOCK FALSE\n")
+    res = common.run_tlc(os.path.join(common.SPEC, "FixedPoint.tla"), cfgp, cwd=work, workers=1, env={"HV_FP_FILE": path}, timeout=1800, heap="6g")
+    if res.rc != 0 or res.distinct != len(facts) + 1:
+        raise common.MachineryError("FixedPoint.tla failed (rc=%s)\n%s" % (res.rc, res.error_excerpt(30)))
+    for m in re.finditer(r'^"FP\|(\d+)\|"$', res.out, re.M):
+        x, sc = facts[int(m.group(1)) - 1], where[int(m.group(1)) - 1]
+        rep.violation("fixed-point:%d:%s" % (sc["year"], re.sub(r":[^.]*\.", ".", x["line"])),
+                      "%s holds %s in return %s, but its definition now yields %s" % (x["line"], x["stored"], sc["sid"], x["again"]),
+                      {"kind": "scenario", "year": sc["year"], "request": sc["request"], "given": sc["given"]})
+    cov["lines_re_evaluated_on_the_final_state"] = len(facts)
+
+
 def cli_request_check(scs, rep, cov, tier):
     """C04 at the command line: `habutax solve --form F ...` (through the argument parser) writes the solution of exactly the
     requested forms -- the same lines as a solve of that request in the library."""
@@ -314,6 +352,8 @@ def run(pid, tier, rep, cov, owner_of):
             cli_report_check(scs, rep, cov, tier)
         if pid == "C04":
             cli_request_check(scs, rep, cov, tier)
+        if pid == "C03":
+            fixed_point_check(scs, rep, cov, tier, work)
         cov["real_form_traces_validated"] = len(traces) - len(rt["traces"])
         cov["repo_test_traces_validated"] = len(rt["traces"])
         cov["real_trace_events"] = sum(len(t["events"]) for t in traces)
